@@ -59,10 +59,11 @@ def scan (split : SplitFn) (max : Nat) : List Nat → Bytes → Bytes → List B
     match drain split (pending.length + 1) pending with
     | (ts, _, some e) => (ts, some e)
     | (ts, p', none) =>
-      if rest.isEmpty then
+      -- the end of the stream is only discovered by a Read, which needs room in the buffer
+      if hmax : max ≤ p'.length then (ts, some .tooLong)
+      else if rest.isEmpty then
         let f := finish split (p'.length + 1) p'
         (ts ++ f.1, f.2)
-      else if hmax : max ≤ p'.length then (ts, some .tooLong)
       else
         -- a Read can never deliver more than the room left in the buffer
         match sched with
